@@ -1,33 +1,60 @@
 (* C05 - Cluster routing follows the replicated subscription state.
    Model: Model/Cluster.v (Swarm.Notify / merge / findPeer / onPeerOnline / onPeerOffline, Peer.subs,
-   the remote entries of the trie, mesh's gossipSender buckets with event.State.Merge), tied to real
-   brokers over a simulated full mesh of real gossipSenders by the c05 harness on every run.
+   the remote entries of the trie, mesh's gossipSender buckets with the swarm's payload adapter), tied
+   to real brokers over a simulated full mesh of real gossipSenders by the c05 harness on every run.
 
-   The property as stated - for EVERY schedule the transport can produce - is FALSE of the current
-   tree (C05_all_schedules_refuted below; findings F4, F7, F8c, each replayed on the real brokers).
-   What is proved, over unbounded histories: a broker that receives the operations of a peer in
-   order and once each - which is what a link does as long as no two payloads meet in a sender
-   slot, no full state overtakes them and nobody is declared offline - forwards a channel to that
-   peer exactly when the peer has a live local subscriber for it.  The two hypotheses are exactly
-   the flags (coalescing / full-state / offline) by which the check sorts schedules. *)
+   Proved, for EVERY schedule - any interleaving of client subscribe / unsubscribe requests with
+   deliveries in any order, coalescing of queued payloads, relaying, periodic complete states, peers
+   declared unreachable and coming back: every broker's routing for every peer it has in its member
+   list is exactly a function of its replicated state (the per-peer counter of a channel is the
+   number of that peer's subscriptions that are active in the state, the trie forwards the channel to
+   the peer iff that number is positive), and nothing is forwarded to a peer that is not a member.
+   Together with the convergence of the replicated state (C04: merge is order-, grouping- and
+   duplicate-insensitive) this gives the property at quiescence for every peer that is a member.
+
+   What remains false of the current tree (C05_returning_peer_refuted, finding F7, replayed on real
+   brokers): a peer that was declared unreachable is dropped from the member list and is only put
+   back by a payload that changes one of its entries, so after it comes back its unchanged live
+   subscriptions are not routed to until its next change. *)
 From stdpp Require Import gmap.
 From Coq Require Import ZArith List.
-From Emitter Require Import Model.Lww Model.Sender Model.Cluster Findings.C05.
+From Emitter Require Import Model.Lww Model.Sender Model.Cluster Proofs.LwwProofs Proofs.ClusterProofs Findings.C05.
 Import ListNotations.
 Local Open Scope N_scope.
 
-(* transport side: an operation queued on an empty slot is kept as it is (and the next pick hands
-   exactly it to the receiver); queued on a non-empty slot it is coalesced - the schedule leaves
-   the domain of the theorem above, and the check flags it *)
-Theorem C05_transport_coalescing_flag : forall w a b data,
-  w_coalesced (link_bcast w a b data)
-  = (w_coalesced w || match l_bcast (get_link w a b) with Some _ => true | None => false end)%bool
-  /\ sender_send None data = Some data.
-Proof. intros. unfold link_bcast, flag, upd_link. cbn. split; reflexivity. Qed.
-Print Assumptions C05_transport_coalescing_flag.
+(* one merge of ANY payload keeps the counters and the trie in step with the state *)
+Theorem C05_merge_keeps_routing_in_step : forall b payload, INV b -> INV (fst (swarm_merge b payload)).
+Proof. exact swarm_merge_INV. Qed.
+Print Assumptions C05_merge_keeps_routing_in_step.
 
-(* the full statement, over all schedules, does not hold: a drained cluster after two rounds of
-   full-state exchange whose routing differs from the ground truth *)
+(* every broker of every schedule *)
+Theorem C05_all_schedules_keep_routing_in_step : forall ns es, Forall wf_ev es -> WINV (run ns es).
+Proof. exact all_schedules_keep_INV. Qed.
+Print Assumptions C05_all_schedules_keep_routing_in_step.
+
+(* what the invariant says about forwarding *)
+Theorem C05_routing_is_a_function_of_the_state : forall b p,
+  INV b -> p <> bk_name b ->
+  match member_get (bk_members b) p with
+  | Some _ => forall s, In (s, p) (bk_remote b) <-> exists k, k_peer k = p /\ k_ssid k = s /\ status (bk_state b) k = true
+  | None => forall s, ~ In (s, p) (bk_remote b)
+  end.
+Proof.
+  intros b p H Hp. destruct (member_get (bk_members b) p) as [cnt|] eqn:G.
+  - apply (routes_by_state b p cnt H Hp G).
+  - apply (no_route_without_member b p H Hp G).
+Qed.
+Print Assumptions C05_routing_is_a_function_of_the_state.
+
+(* transport: whatever is queued on a link before it sends, the payload sent carries all of it
+   (C13_coalesce); a payload queued on an empty slot is sent as it is *)
+Theorem C05_transport_keeps_everything : forall pending data,
+  sender_send None data = Some data /\ sender_send (Some pending) data = Some (lww_merge pending data).
+Proof. intros. split; reflexivity. Qed.
+Print Assumptions C05_transport_keeps_everything.
+
+(* the full statement, over all schedules including peers going away and coming back, does not
+   hold: a drained cluster after full-state exchange whose routing differs from the ground truth *)
 Definition routing_ok (w : world) : bool :=
   forallb (fun b => let r := bk_remote (get_broker w b) in let t := truth_remote w b in
                     forallb (fun x => existsb (Cluster.pair_eqb x) t) r && forallb (fun x => existsb (Cluster.pair_eqb x) r) t)
@@ -38,3 +65,13 @@ Theorem C05_all_schedules_refuted :
                     /\ length (receivers (run ns es) b s) <> length (live_subscribers (run ns es) s).
 Proof. exists [1; 2; 3], f7_schedule, 3, 1. vm_compute. repeat split; discriminate. Qed.
 Print Assumptions C05_all_schedules_refuted.
+
+(* the invariant is not vacuous: a broker that merged a coalesced unsubscribe-and-resubscribe (the
+   payload that the delta-counting merge counted twice) and the final unsubscribe *)
+Example C05_nonvacuous :
+  let k := mk_key 1 7 2 in
+  let b1 := fst (swarm_merge (broker0 2) {[k := Ent 10 0 []]}) in
+  let b2 := fst (swarm_merge b1 {[k := Ent 30 20 []]}) in
+  let b3 := fst (swarm_merge b2 {[k := Ent 30 40 []]}) in
+  bk_remote b1 = [(2, 1)] /\ bk_remote b2 = [(2, 1)] /\ bk_remote b3 = [] /\ bk_members b3 = [(1, [])].
+Proof. vm_compute. repeat split. Qed.
